@@ -15,7 +15,9 @@
      with an independent evaluation of the declared law here (libm through ctypes), which is the
      judge of the property on a differing line.
 """
+import contextlib
 import ctypes
+import fcntl
 import glob
 import math
 import os
@@ -591,6 +593,19 @@ FUN_BIN = {"pow": "pow", "min": "min", "max": "max"}
 
 class ParseError(Exception):
     pass
+
+
+@contextlib.contextmanager
+def build_tree_in_use():
+    """shared hold of the build-tree lock while binaries / libraries of the build tree are executed or linked: a concurrent
+    `ensure_targets` of another check (exclusive lock) cannot relink them under our feet"""
+    f = open(os.path.join(vlib.VERIF, "work", ".ninja.lock"), "a")
+    fcntl.flock(f, fcntl.LOCK_SH)
+    try:
+        yield
+    finally:
+        fcntl.flock(f, fcntl.LOCK_UN)
+        f.close()
 
 
 def tokenize(s):
@@ -1235,7 +1250,8 @@ def mfront_env():
 
 def run_mfront(ck, gendir, files):
     exe = os.path.join(vlib.BUILD, "mfront", "src", "mfront")
-    p = ck.run([exe, "--interface=c,c++,generic"] + files, cwd=gendir, timeout=280, env=mfront_env())
+    with build_tree_in_use():
+        p = ck.run([exe, "--interface=c,c++,generic"] + files, cwd=gendir, timeout=280, env=mfront_env())
     if p.returncode != 0:
         raise vlib.BuildError("the mfront binary of the tree fails on the generated material-property files",
                               (p.stdout + p.stderr)[-3000:])
@@ -1266,7 +1282,8 @@ def build_harness(ck, iface, descs, gendir):
         f.write("static const Entry table[] = {\n" + "".join(glue(iface, d) for d in descs) + '  {"", 0, nullptr}\n};\n')
     inc = [wd, os.path.join(gendir, "include"), vlib.REPO + "/mfront/include"]
     libs = ck.libflags("TFELMath", "TFELException") + ["-lm"]
-    return ck.cxx("c37h_" + iface, ["C37/harness.cxx"], flags=("-w", "-frounding-math"), includes=inc, libs=libs, opt="-O0")
+    with build_tree_in_use():
+        return ck.cxx("c37h_" + iface, ["C37/harness.cxx"], flags=("-w", "-frounding-math"), includes=inc, libs=libs, opt="-O0")
 
 
 def build_all(ck, descs, gendir):
@@ -1496,8 +1513,9 @@ def run(ck):
         out = []
         for mode, cs in batch:
             itf = mode.split("-")[0]
-            pi = ck.run([exes[itf]], input="".join(line_h(d, a, ov) for (d, a, ov, _, _) in cs), timeout=280,
-                        cwd=filedir if mode == "generic-file" else ck.work)
+            with build_tree_in_use():
+                pi = ck.run([exes[itf]], input="".join(line_h(d, a, ov) for (d, a, ov, _, _) in cs), timeout=280,
+                            cwd=filedir if mode == "generic-file" else ck.work)
             impl = pi.stdout.splitlines()
             if pi.returncode != 0 or len(impl) != len(cs):
                 ck.violation("harness-crash:" + mode, "the run-time harness of the %s interface aborted (exit %s)" % (mode, pi.returncode),
